@@ -61,6 +61,9 @@ func runKeyPhase(w *bufio.Writer, seed uint64, n int, _ []string) {
 	for i := 0; i < n; i++ {
 		kpCase(w, r.Fork(), dist, i)
 	}
+	for i := 0; i < n/3; i++ {
+		kpSysCase(w, r.Fork(), dist)
+	}
 	ppPrintDist(w, dist)
 }
 
@@ -443,7 +446,7 @@ func kpCase(w *bufio.Writer, r *u.Rng, dist map[string]int, caseNo int) {
 			// optimistic / out-of-order ACK of some packet this side sent (delivered or not)
 			var own []int64
 			for _, p := range pkts {
-				if p.from == sd {
+				if p.from == sd && !p.forged { // only numbers this side really sent (the sent packet handler rejects other ACKs)
 					own = append(own, p.pn)
 				}
 			}
